@@ -179,6 +179,13 @@
     /// `vec![(m, w)]`: a one-element vector (R16)
     #[verifier::external_body]
     pub fn verif_one<'src>(m: InstructionMatch, w: syntax::Walker<'src>) -> (r: Vec<WorkingMatch<'src>>) ensures r@ == seq![(m, w)] { unimplemented!() }
+    /// C07, the look-ahead character of a parameter slot: the first literal character after it, blanks in the pattern
+    /// skipped; none if another parameter slot or the end of the pattern comes first
+    pub open spec fn next_literal(pattern: Seq<RulePatternPart>, i: int) -> Option<char> decreases pattern.len() - i {
+        if i < 0 || i >= pattern.len() { None } else {
+            match pattern[i] { RulePatternPart::Whitespace => next_literal(pattern, i + 1), RulePatternPart::Exact(c) => Some(c), _ => None }
+        }
+    }
     // ---- C07: how one rule is laid over the text (match_with_rule), part by part
     /// the matches an expression parameter / a sub-rule parameter at pattern part `at` contributes (match_with_expr,
     /// match_with_nested_ruledef; uninterpreted here), with and without the look-ahead cut
